@@ -6,6 +6,7 @@ package sim
 
 import (
 	"encoding/json"
+	"os"
 	"fmt"
 	"sort"
 	"strings"
@@ -15,6 +16,7 @@ import (
 
 	"connectrpc.com/connect"
 	"github.com/streamingfast/bstream"
+	"github.com/streamingfast/substreams/pipeline/exec"
 )
 
 type HistItem struct {
@@ -111,6 +113,7 @@ type RunReport struct {
 	VirtualS   float64        `json:"virtual_s"`
 	WallMs     float64        `json:"wall_ms"`
 	Fired      map[string]int `json:"fired,omitempty"`
+	FiredAt    []string       `json:"fired_at,omitempty"`
 	Probes     map[string]int `json:"probes,omitempty"`
 	Requests   int            `json:"requests"`
 	NonTrivial bool           `json:"nontrivial"`
@@ -243,11 +246,21 @@ func RunScenario(t *testing.T, s *Scenario, chk Checker, keepLog bool) (rep *Run
 			rep.VirtualS = sim.VirtualElapsed().Seconds()
 			rep.LogHash = fmt.Sprintf("%016x", sim.LogHash())
 			rep.Fired = sim.Fired()
+			rep.FiredAt = sim.FiredAt()
 			for k, v := range env.Probes {
 				rep.Probes[k] += v
 			}
 			if keepLog {
 				rep.Log = sim.LogText()
+			}
+			if os.Getenv("SIM_DUMPDISK") == "1" {
+				names := map[string]string{}
+				if g, err := exec.NewOutputModuleGraph(s.Pkg.Output, true, s.Pkg.Modules(), s.First); err == nil {
+					for _, m := range g.UsedModules() {
+						names[g.ModuleHashes().Get(m.Name)] = m.Name
+					}
+				}
+				fmt.Println(DumpDisk(disk, names))
 			}
 			if ps := env.Panics(); len(ps) > 0 && rep.Violation == nil {
 				rep.Violation = viol(s.Prop, "panic", "%s", ps[0])
@@ -271,6 +284,7 @@ func RunScenario(t *testing.T, s *Scenario, chk Checker, keepLog bool) (rep *Run
 				sim.Kill(res.Node)
 			}
 			if v := chk.AfterRequest(x, i, h, res); v != nil {
+				v.ReqIdx = i
 				rep.Violation = v
 				return
 			}
